@@ -263,6 +263,20 @@ fn main() {
         "corpus" => {
             print!("{}", corpus::describe());
         }
+        "determinism" => {
+            // every run of a small batch is executed twice: once in chunked workers (16 at a
+            // time), once alone in a fresh process (9 at a time); event-log digests must agree
+            let prop_id = args.get(2).cloned().unwrap_or_default();
+            let n: u64 = args.get(3).and_then(|v| v.parse().ok()).unwrap_or(600);
+            let seed = env_u64("VERIF_SEED").unwrap_or(DEFAULT_SEED);
+            let _ = find_prop(&prop_id);
+            let mut cfg = props::batch_cfg(&prop_id, Tier::Quick, seed);
+            cfg.runs = n;
+            cfg.recheck = n;
+            std::env::set_var("WACSIM_NO_EVIDENCE", "1");
+            let report = supervisor::run_batch(cfg);
+            std::process::exit(report.exit_code);
+        }
         "selfcheck" => match seams::seam_h_selfcheck() {
             Ok(n) => println!("seam H live: 16 hash seeds gave {n} canary orders, each reproducible"),
             Err(e) => {
